@@ -84,6 +84,9 @@ func main() {
 	case "evmsync":
 		res = evmsyncstream.Run(*seed, *tier, wd, *driver, rp)
 	case "commit":
+		if *prop != "" {
+			commitstream.Prop = *prop
+		}
 		res = commitstream.Run(*seed, *tier, wd, *driver, rp)
 	default:
 		fmt.Fprintln(os.Stderr, "unknown stream", stream)
